@@ -786,17 +786,24 @@ func (t *Topic) handleLeaveRequest(msg *ClientComMessage, sess *Session) {
 	}
 
 	// User wants to leave without unsubscribing.
+	attached := sess
+	if sess.multi != nil {
+		attached = sess.multi
+	}
+	if pssd, ok := t.sessions[attached]; ok {
+		if !msg.init {
+			// The session is being dropped: it leaves in whatever capacity it is attached.
+			asChan = pssd.isChanSub
+		} else if pssd.isChanSub != asChan {
+			// Cannot address non-channel subscription as channel and vice versa: the request is refused
+			// and the session stays attached.
+			sess.queueOut(ErrNotFoundReply(msg, now))
+			return
+		}
+	}
 	if pssd, _ := t.remSession(sess, asUid); pssd != nil {
 		if !sess.isProxy() {
 			sess.delSub(t.name)
-		}
-		if pssd.isChanSub != asChan {
-			// Cannot address non-channel subscription as channel and vice versa.
-			if msg.init {
-				// Group topic cannot be addressed as channel unless channel functionality is enabled.
-				sess.queueOut(ErrNotFoundReply(msg, now))
-			}
-			return
 		}
 
 		var uid types.Uid
